@@ -248,9 +248,12 @@ def run(f, fixture, rep, cfg, tier):
     if rep.anchor(ag is not None, "R6", "Lead aggregate in Lead::new"):
         for k, v in LEAD.items():
             rep.check(ag[0].get(k) == v, "R6", "lead|%s" % k, "lead.%s = %s" % (k, v), "lead.%s is %s (expected %s)" % (k, ag[0].get(k), v), ln.span)
-        cp = [c for c in ln.calls() if c.decl.endswith("clone_from_slice")]
+        cp = [c for c in ln.calls() if c.decl.endswith("clone_from_slice") or c.decl.endswith("copy_from_slice")]
         t = render(tl.term(cp[0].args[0])) if cp else ""
-        okn = "std::cmp::min(SubWithOverflow(core::slice::<impl [T]>::len(('repeat', ('const', '0_u8'), '66')), 1_usize), core::str::<impl str>::len(name))" in t
+        # the copy is cut to min(65, name.len()) - `cmp::min` or `.min()`, either operand order - and lands in a zeroed [u8; 66]
+        cap = r"(?:SubWithOverflow\(core::slice::<impl \[T\]>::len\(\('repeat', \('const', '0_u8'\), '66'\)\), 1_usize\)|65_usize)"
+        nl = r"core::str::<impl str>::len\(%s\)" % re.escape(ln.local_name(1) or "name")
+        okn = re.search(r"(?:std::cmp::min|std::cmp::Ord::min)\((?:%s, %s|%s, %s)\)" % (cap, nl, nl, cap), t) is not None and "('repeat', ('const', '0_u8'), '66')" in t
         rep.check(okn, "R6", "lead|name", "name: at most 65 bytes copied into a zeroed [u8; 66] (always NUL-terminated)", "lead name copy target is %s" % t[:200], ln.span)
     use = [c for c in pd.calls() if c.decl.endswith("lead::Lead::new")]
     rep.check(len(use) == 1 and render(tp.term(use[0].args[0])) == "self.name", "R6", "lead|used", "the builder's lead is Lead::new(name)", "prepare_data builds the lead from %s" % [render(tp.term(c.args[0])) for c in use], pd.span)
